@@ -181,6 +181,66 @@ def run_tier(prop, tier, seed, binp, out, runs, budget, nworkers, race, summarie
         except Exception as e:
             infra_msgs.append("unreadable summary %s: %s" % (sp, e))
 
+def selftest(prop, tier, seed, tmp, nruns):
+    """Determinism proof for one property: every run index must give the same event-log hash, step count,
+    switch count and violation signatures in every process, whatever GOMAXPROCS, build flavour or machine load."""
+    results = {}
+    problems = []
+    def launch(binp, tag, gmp, runs, race):
+        out = os.path.join(tmp, "st-" + tag)
+        os.makedirs(out, exist_ok=True)
+        hl = os.path.join(out, "hashlog")
+        env = worker_env(prop, tier, seed, out, 0, 1, runs, 3600, race, {"VERIF_HASHLOG": hl, "VERIF_NOSHRINK": "1", "VERIF_DET_EVERY": "0", "GOMAXPROCS": str(gmp)})
+        return spawn(binp, env, out, 0), hl
+    def read(hl):
+        d = {}
+        try:
+            for line in open(hl):
+                idx, rest = line.split(" ", 1)
+                d[int(idx)] = rest.strip()
+        except OSError:
+            pass
+        return d
+    binp, _, _ = build(tmp, False)
+    # phase 1: the same indices, one process per GOMAXPROCS value, run concurrently (machine under load)
+    procs = [(("plain-gmp%d" % g), launch(binp, "plain-gmp%d" % g, g, nruns, False)) for g in (1, 4, 16)]
+    for tag, (p, hl) in procs:
+        p.wait()
+        results[tag] = read(hl)
+    # phase 2: 30 processes at once over the first 20 indices
+    procs = [(("par%02d" % k), launch(binp, "par%02d" % k, [1, 2, 4, 16][k % 4], 20, False)) for k in range(30)]
+    for tag, (p, hl) in procs:
+        p.wait()
+        results[tag] = read(hl)
+    # phase 3: the race-visible build (same schedule expected: only happens-before annotations differ)
+    rbin, _, _ = build(tmp, True)
+    p, hl = launch(rbin, "race-gmp4", 4, max(20, nruns // 4), True)
+    p.wait()
+    results["race-gmp4"] = read(hl)
+    ref = results["plain-gmp1"]
+    if len(ref) < nruns:
+        problems.append("reference process produced %d of %d runs" % (len(ref), nruns))
+    compared = 0
+    for tag, d in sorted(results.items()):
+        if not d:
+            problems.append("%s produced no runs" % tag)
+        for idx, v in sorted(d.items()):
+            compared += 1
+            if idx in ref and ref[idx] != v:
+                problems.append("run %d differs in %s: %s vs reference %s" % (idx, tag, v, ref[idx]))
+    os.makedirs(os.path.join(VERIF, "selftest"), exist_ok=True)
+    rep = {"property": prop, "tier": tier, "seed": seed, "runs_in_reference": len(ref), "processes": len(results), "run_records_compared": compared,
+           "configurations": sorted(results.keys()), "divergences": problems[:20], "ok": not problems,
+           "compared_fields": "event-log hash, scheduler steps, task switches, violation signatures"}
+    json.dump(rep, open(os.path.join(VERIF, "selftest", prop + ".json"), "w"), indent=1)
+    log("selftest property=%s processes=%d records=%d divergences=%d" % (prop, len(results), compared, len(problems)))
+    for m in problems[:10]:
+        log("  " + m)
+    if problems:
+        log("INFRA determinism self-test failed")
+        return 2
+    return 0
+
 def main():
     ap = argparse.ArgumentParser()
     ap.add_argument("prop")
@@ -194,6 +254,7 @@ def main():
     ap.add_argument("--keep", action="store_true")
     ap.add_argument("--no-evidence", action="store_true")
     ap.add_argument("--warm", action="store_true", help="build both binaries (warms the Go build cache) and exit")
+    ap.add_argument("--selftest", action="store_true", help="determinism proof: same seeds in separate processes at GOMAXPROCS 1/4/16, plain and race build, and 30 same-seed processes in parallel; writes /verif/selftest/<id>.json")
     a = ap.parse_args()
     prop, tier = a.prop, a.tier
     seed = int(os.environ.get("VERIF_SEED", "1") or 1)
@@ -235,6 +296,9 @@ def main():
                 log("replay did not reproduce the violation on the current tree")
                 sys.exit(0)
             infra("replay ended with rc=%d" % p.returncode)
+
+        if a.selftest:
+            sys.exit(selftest(prop, tier, seed, tmp, a.runs or 200))
 
         runs = a.runs or pm["runs"][tier]
         budget = a.budget or pm["budget_s"][tier]
